@@ -732,6 +732,13 @@ class ArrayFill(Expr):
         return Arr([v] * n)
 
 
+def oob(seq_ty):
+    """Array: the documented trap; Vec: std's IndexGet/IndexSet call fatal_error (exit status 1)."""
+    if seq_ty.kind == "Vec":
+        raise Fatal("index out of bounds for vector")
+    raise Trap("INDEX_OUT_OF_BOUNDS")
+
+
 class Index(Expr):
     def __init__(self, a, i):
         self.a, self.i, self.ty = a, i, a.ty.elem
@@ -744,7 +751,7 @@ class Index(Expr):
         a = self.a.ev(st, env)
         i = self.i.ev(st, env)
         if i < 0 or i >= len(a.v):
-            raise Trap("INDEX_OUT_OF_BOUNDS")
+            oob(self.a.ty)
         return a.v[i]
 
 
@@ -954,7 +961,7 @@ def _index_assign(self, st, env, v):
     a = self.a.ev(st, env)
     i = self.i.ev(st, env)
     if i < 0 or i >= len(a.v):
-        raise Trap("INDEX_OUT_OF_BOUNDS")
+        oob(self.a.ty)
     a.v[i] = v
 
 
@@ -1013,7 +1020,7 @@ class Assign(Stmt):
                 i = self.lv.i.ev(st, env)
                 v = self.e.ev(st, env)
                 if i < 0 or i >= len(a.v):
-                    raise Trap("INDEX_OUT_OF_BOUNDS")
+                    oob(self.lv.a.ty)
                 a.v[i] = v
                 return
             v = self.e.ev(st, env)
